@@ -440,6 +440,14 @@ def resolve_target(w, target):
             return None
         qs = qwbranches_of(w, pr)
         return heads[qs[target[2] % len(qs)]] if qs else None
+    if kind == 'qw_stab':
+        # the queue commit of the PR on its stabilization version (x.y.z)
+        pr = user_pr(w, target[1])
+        if not pr:
+            return None
+        qs = [h for h in qwbranches_of(w, pr)
+              if h.split('/')[3].count('.') == 2]
+        return heads[qs[0]] if qs else None
     if kind == 'q':
         qs = qbranches(w)
         return heads[qs[target[1] % len(qs)]] if qs else None
@@ -632,6 +640,26 @@ def op_settle(w, op):
     return recs
 
 
+def op_ff_dst(w, op):
+    """Somebody with push rights fast-forwards a destination branch by hand
+    to the tip of a PR's source branch (out-of-band merge)."""
+    pr = user_pr(w, op.get('p'))
+    heads = w.heads()
+    if pr is None or pr.src_branch not in heads or \
+            pr.dst_branch not in heads:
+        return
+    if not w.is_ancestor(heads[pr.dst_branch], heads[pr.src_branch]):
+        return
+    w.ugit('push', '-q', 'origin', '%s:refs/heads/%s' % (
+        heads[pr.src_branch], pr.dst_branch), check=False)
+    sha = heads[pr.src_branch]
+    hist = w.dest_history.setdefault(pr.dst_branch, [])
+    if not hist or hist[-1] != sha:
+        hist.append(sha)
+    w.hand_pushed = getattr(w, 'hand_pushed', set()) | {sha}
+    w.events.append({'k': 'pr', 'id': pr.id, 'why': 'dst-ff-by-hand'})
+
+
 def op_third_party(w, op):
     """A third party acting between jobs (outside any window)."""
     w._third_party(op['action'])
@@ -642,7 +670,7 @@ APPLY = {
     'rebase': op_rebase, 'merge_dst': op_merge_dst,
     'reset_src': op_reset_src, 'decline': op_decline,
     'delete_src': op_delete_src, 'wcommit': op_wcommit,
-    'delete_w': op_delete_w,
+    'delete_w': op_delete_w, 'ff_dst': op_ff_dst,
     'approve': _review('approve'),
     'request_changes': _review('request_changes'),
     'dismiss': _review('dismiss'), 'comment_review': _review(
